@@ -54,6 +54,11 @@ def rule_a9_set(ctx):
                 if isinstance(callee, FuncInfo):
                     ctx.ob('A9.set', m, 'return %s' % txt, True, 'delegates to %s (analysed on its own)' % callee.short, node=r)
                     continue
+            if isinstance(v, ast.Subscript) and isinstance(v.slice, ast.Slice) and norm(v.value).endswith(('.tagSet', '.minTagSet', '.effectiveTagSet')):
+                ctx.ob('A9.set', m, 'return %s' % txt, False,
+                       'the key is the slice `%s` of the tag set, not its outermost tag `[-1:]`: explicitly tagged SET members are ordered by '
+                       'an inner tag (X.690 10.3 orders by the outermost one)' % norm(v.slice), node=r)
+                continue
             raise AnalysisError('sort key expression `%s` in %s not recognised' % (txt, m.short))
     if len(seen) < 2:
         raise AnalysisError('expected distinct CER and DER sort keys')
